@@ -22,6 +22,18 @@ class Exit:
     test: ast.AST | None  # the `if` (or None when unconditional)
     loops: tuple         # enclosing ast.For/While nodes inside the walk
     env: Env             # environment at the guard (for later lookups)
+    path: tuple = ("true",)   # cond AND not(earlier exits of the blocks)
+
+
+@dataclass
+class Mark:
+    """A watched assignment with the condition under which it executes."""
+
+    name: str
+    value: Any
+    path: tuple
+    node: ast.stmt
+    loops: tuple
 
 
 _EXIT = (ast.Raise, ast.Continue, ast.Break, ast.Return)
@@ -43,8 +55,13 @@ def assigned_names(stmts: list[ast.stmt]) -> set[str]:
 class GuardWalk:
     """See module docstring."""
 
-    def __init__(self, ev: Evaluator) -> None:
+    def __init__(self, ev: Evaluator, summariser: Any = None,
+                 watch: set[str] | None = None) -> None:
         self.ev = ev
+        self.ls = summariser
+        self.watch = watch or set()
+        self.marks: list[Mark] = []
+        self._path: tuple = ("true",)
         self.exits: list[Exit] = []
         self.opaque: list[tuple[ast.stmt, str]] = []
         self.loop_envs: dict[int, Env] = {}
@@ -56,9 +73,34 @@ class GuardWalk:
 
     def walk(self, env: Env, stmts: list[ast.stmt], pc: tuple = ("true",),
              loops: tuple = ()) -> Env:
+        saved = self._path
         for s in stmts:
+            n_before = len(self.exits)
             env = self._stmt(env, s, pc, loops)
+            # exits taken directly by this statement narrow the path of the
+            # statements that follow it
+            for e in self.exits[n_before:]:
+                if e.test is s or e.node is s:
+                    self._path = c_andx(self._path, c_notx(e.cond))
+        self._path = saved
         return env
+
+    def _sub(self, env: Env, stmts: list[ast.stmt], pc: tuple, loops: tuple,
+             extra: tuple) -> Env:
+        saved = self._path
+        self._path = c_andx(saved, extra)
+        try:
+            return self.walk(env, stmts, pc, loops)
+        finally:
+            self._path = saved
+
+    def _mark(self, env: Env, s: ast.stmt, loops: tuple) -> None:
+        for t in _targets(s):
+            nm = t.id if isinstance(t, ast.Name) else (
+                ast.unparse(t) if isinstance(t, ast.Attribute) else None)
+            if nm in self.watch:
+                self.marks.append(Mark(nm, env.vars.get(nm), self._path, s,
+                                       loops))
 
     def _kind(self, s: ast.stmt) -> str:
         return type(s).__name__.lower()
@@ -66,7 +108,7 @@ class GuardWalk:
     def _stmt(self, env: Env, s: ast.stmt, pc: tuple, loops: tuple) -> Env:
         if isinstance(s, _EXIT):
             self.exits.append(Exit(self._kind(s), pc, s, None, loops,
-                                   env.copy()))
+                                   env.copy(), self._path))
             return env
         if isinstance(s, ast.If):
             try:
@@ -74,24 +116,25 @@ class GuardWalk:
             except Unsupported as u:
                 c = ("opaque", ast.unparse(s.test), str(u))
             if _ends_with_exit(s.body):
-                e1 = self.walk(env.copy(), s.body[:-1], c_andx(pc, c), loops)
+                e1 = self._sub(env.copy(), s.body[:-1], c_andx(pc, c), loops,
+                               c)
                 self.exits.append(Exit(self._kind(s.body[-1]),
                                        c_andx(pc, c), s.body[-1], s, loops,
-                                       e1))
+                                       e1, c_andx(self._path, c)))
                 if s.orelse:
-                    return self.walk(env, s.orelse, pc, loops)
+                    return self._sub(env, s.orelse, pc, loops, c_notx(c))
                 return env
             if s.orelse and _ends_with_exit(s.orelse):
                 nc = c_notx(c)
-                e2 = self.walk(env.copy(), s.orelse[:-1], c_andx(pc, nc),
-                               loops)
+                e2 = self._sub(env.copy(), s.orelse[:-1], c_andx(pc, nc),
+                               loops, nc)
                 self.exits.append(Exit(self._kind(s.orelse[-1]),
                                        c_andx(pc, nc), s.orelse[-1], s,
-                                       loops, e2))
-                return self.walk(env, s.body, pc, loops)
-            e1 = self.walk(env.copy(), s.body, c_andx(pc, c), loops)
-            e2 = self.walk(env.copy(), s.orelse, c_andx(pc, c_notx(c)),
-                           loops)
+                                       loops, e2, c_andx(self._path, nc)))
+                return self._sub(env, s.body, pc, loops, c)
+            e1 = self._sub(env.copy(), s.body, c_andx(pc, c), loops, c)
+            e2 = self._sub(env.copy(), s.orelse, c_andx(pc, c_notx(c)),
+                           loops, c_notx(c))
             if c[0] == "opaque":
                 out = env.copy()
                 for nm in assigned_names(s.body) | assigned_names(s.orelse):
@@ -105,6 +148,14 @@ class GuardWalk:
                     out.vars[nm] = self.fresh(nm)
                 return out
         if isinstance(s, (ast.For, ast.While)):
+            summarised = None
+            if self.ls is not None and isinstance(s, ast.For):
+                trial = env.copy()
+                try:
+                    if self.ls.hook(self.ev, trial, s):
+                        summarised = trial
+                except Unsupported as u:
+                    self.opaque.append((s, f"loop not summarised: {u}"))
             inner = env.copy()
             for nm in assigned_names(s.body):
                 inner.vars[nm] = self.fresh(nm)
@@ -113,7 +164,12 @@ class GuardWalk:
                     if isinstance(t, ast.Name):
                         inner.vars[t.id] = Poly.var(t.id)
             self.loop_envs[id(s)] = inner.copy()
+            saved = self._path
+            self._path = ("true",)   # paths inside a loop are per iteration
             self.walk(inner, s.body, pc, loops + (s,))
+            self._path = saved
+            if summarised is not None:
+                return summarised
             out = env.copy()
             for nm in assigned_names(s.body) | (
                     assigned_names([s]) if isinstance(s, ast.For) else set()):
@@ -122,12 +178,22 @@ class GuardWalk:
         if isinstance(s, (ast.With,)):
             return self.walk(env, s.body, pc, loops)
         try:
-            return self.ev.stmt(env, s)
+            env = self.ev.stmt(env, s)
+            self._mark(env, s, loops)
+            return env
         except Unsupported as u:
             self.opaque.append((s, str(u)))
             for nm in assigned_names([s]):
                 env.vars[nm] = self.fresh(nm)
             return env
+
+
+def _targets(s: ast.stmt) -> list[ast.expr]:
+    if isinstance(s, ast.Assign):
+        return list(s.targets)
+    if isinstance(s, (ast.AnnAssign, ast.AugAssign)):
+        return [s.target]
+    return []
 
 
 def c_andx(a: tuple, b: tuple) -> tuple:
